@@ -58,12 +58,14 @@ class Spec:
             if configured:
                 kw['answers'] = ['c1', 'c2']
             return m.SingleListGrader(subgrader=m.StringGrader(), **kw)
+        if n == 'list':
+            return m.ListGrader(answers=['c1', 'c2'], subgraders=m.StringGrader(), **kw)
         raise KeyError(n)
 
     def expect(self, which):
         n = self.name
         tab = {'string': {'e1': 'cat', 'e2': 'dog'}, 'formula': {'e1': '2*x', 'e2': '3*x+1'}, 'numerical': {'e1': '2', 'e2': '3'},
-               'matrix': {'e1': '[1, 2]', 'e2': '[3, 4]'}, 'singlelist': {'e1': 'a, b', 'e2': 'c, d'}}[n]
+               'matrix': {'e1': '[1, 2]', 'e2': '[3, 4]'}, 'singlelist': {'e1': 'a, b', 'e2': 'c, d'}, 'list': {'e1': 'ignored', 'e2': 'ignored too'}}[n]
         if which == 'absent':
             return None
         if which == 'invalid':
@@ -73,6 +75,8 @@ class Spec:
     def right_for(self, eff):
         """an input that is right for the effective expect (None -> no answer available)"""
         n = self.name
+        if n == 'list':
+            return ['c2', 'c1']
         if eff is None:
             return 'whatever' if n in ('string', 'singlelist') else '1'
         if n == 'singlelist':
@@ -86,19 +90,23 @@ class Spec:
         return eff
 
     def wrong(self):
-        return {'string': 'eel', 'formula': 'x+50', 'numerical': '50', 'matrix': '[50, 50]', 'singlelist': 'y, z'}[self.name]
+        return {'string': 'eel', 'formula': 'x+50', 'numerical': '50', 'matrix': '[50, 50]', 'singlelist': 'y, z', 'list': ['c1', 'zz']}[self.name]
 
     def malformed(self):
-        return {'string': 5, 'formula': '1+', 'numerical': '(1', 'matrix': '[1,2]^-1 + [1,', 'singlelist': 'a,,b'}[self.name]
+        return {'string': 5, 'formula': '1+', 'numerical': '(1', 'matrix': '[1,2]^-1 + [1,', 'singlelist': 'a,,b', 'list': ['only-one']}[self.name]
 
     def configured_expect(self):
-        return {'string': 'cfg', 'formula': '7*x', 'numerical': '7', 'matrix': '[7, 7]', 'singlelist': 'c1, c2'}[self.name]
+        return {'string': 'cfg', 'formula': '7*x', 'numerical': '7', 'matrix': '[7, 7]', 'singlelist': 'c1, c2', 'list': 'n/a'}[self.name]
 
 
 def _call(g, expect, inp):
+    import z3
+    from symx import Unsupported
     try:
         r = g(expect, inp)
         return ('ret', r)
+    except z3.Z3Exception as e:
+        raise Unsupported('solver trouble inside a grader call: %s' % e)      # never part of the observable behaviour
     except Exception as e:   # noqa  (what escapes is part of the observable behaviour being compared)
         return ('exc', type(e).__name__, str(e))
 
@@ -109,6 +117,12 @@ def _same(a, b, debug):
     if a[0] == 'exc':
         return a[1] == b[1] and (debug or a[2] == b[2])
     ra, rb = a[1], b[1]
+    if 'input_list' in ra or 'input_list' in rb:
+        if set(ra) != set(rb) or len(ra['input_list']) != len(rb['input_list']):
+            return False
+        ents = all(x['ok'] == y['ok'] and x['grade_decimal'] == y['grade_decimal'] and x['msg'] == y['msg'] for x, y in zip(ra['input_list'], rb['input_list']))
+        om = (_strip_log(ra['overall_message']) == _strip_log(rb['overall_message'])) if debug else ra['overall_message'] == rb['overall_message']
+        return ents and om
     if set(ra) != set(rb) or ra['ok'] != rb['ok']:
         return False
     ga, gb = ra['grade_decimal'], rb['grade_decimal']
@@ -131,7 +145,9 @@ def _log_fresh(got, inp):
     """a debug log must describe THIS call only: one header, one student response (the current input), at most one inference line"""
     if got[0] != 'ret':
         return True
-    msg = got[1]['msg']
+    msg = got[1]['msg'] if 'msg' in got[1] else got[1].get('overall_message', '')
+    if isinstance(inp, list):
+        return msg.count('MITx Grading Library Version') == 1 and msg.count('Student Responses') == 1
     return (msg.count('MITx Grading Library Version') == 1 and msg.count('Student Response') == 1 and msg.count('Expect value inferred') <= 1
             and ('Student Response:<br/>\n%s' % inp) in msg)
 
@@ -189,7 +205,7 @@ def h_sequence(E, cls, configured, debug, length):
         if ex in ('e1', 'e2') and not configured and not (cls == 'string' and kind == 'malformed' and False):
             # the expect was supplied successfully iff inference/validation went through, which does not depend on the input
             last_good = expect
-        sig.append((ex, kind, got[0], got[1] if got[0] == 'exc' else str(got[1]['ok'])))
+        sig.append((ex, kind, got[0], got[1] if got[0] == 'exc' else str(got[1].get('ok', [e_['ok'] for e_ in got[1].get('input_list', [])]))))
     after = _globals_snapshot()
     E.check('process-wide-settings-untouched', all(before[k] == after[k] for k in before))
     E.check('other-instances-untouched', {k: v for k, v in bystander.config.items() if k != 'sample_from'} == by_cfg)
@@ -307,9 +323,9 @@ def harnesses(tier):
 
     def add(fn, base, params, bounds, **kw):
         hs.append(Harness(pname(base, **params), fn, tuple(params.values()), FUNCS, bounds, STUBS, **kw))
-    for cls in ('string', 'formula', 'numerical', 'matrix', 'singlelist'):
+    for cls in ('string', 'formula', 'numerical', 'matrix', 'singlelist', 'list'):
         L = (4 if T else 3) if cls in ('string', 'formula') else (3 if T else 2)
-        for configured in (False, True):
+        for configured in ((False, True) if cls != 'list' else (True,)):
             for debug in (False, True):
                 add(h_sequence, 'sequence', dict(cls=cls, configured=configured, debug=debug, length=L if not (configured and L > 2) else L - 1),
                     'all event sequences of that length', validate=False)
